@@ -1,6 +1,8 @@
 package node
 
 import (
+	"reflect"
+
 	"github.com/paulsonkoly/calc/types/bytecode"
 	"github.com/paulsonkoly/calc/types/compresult"
 	"github.com/paulsonkoly/calc/types/dbginfo"
@@ -310,7 +312,7 @@ func (b BinOp) byteCode(srcsel int, fl flags.Pass, cr compResult) bytecode.Type 
 		_, nonComparable = b.Right.(List)
 	}
 
-	if tempified && !nonComparable && b.Left == b.Right {
+	if tempified && !nonComparable && reflect.DeepEqual(b.Left, b.Right) {
 		// some common sub-expression elimination
 		instr := bytecode.New(bytecode.PUSHTMP)
 		*cr.CS = append(*cr.CS, instr)
